@@ -143,6 +143,51 @@ def run_one(req, workdir, tag, env_extra=None, no_aslr=False, timeout=300):
     return obs
 
 
+ENV_VIEWS = [
+    {},
+    {"TARGET": "aarch64-unknown-linux-gnu"},
+    {"BINDGEN_EXTRA_CLANG_ARGS": "-DBVSIM_EXTRA=1 -Wno-everything"},
+    {"TARGET": "x86_64-unknown-linux-gnu", "BINDGEN_EXTRA_CLANG_ARGS_x86_64_unknown_linux_gnu": "-DPER_TARGET=2"},
+]
+
+
+def build_cli():
+    """The real command-line binary, built from /repo's working tree without
+    the hooks (into /verif/target/cli so /repo is left alone)."""
+    from common import TARGET
+    tdir = os.path.join(TARGET, "cli")
+    env = dict(os.environ, CARGO_NET_OFFLINE="true")
+    env.pop("RUSTFLAGS", None)
+    p = subprocess.run(["cargo", "build", "--offline", "-p", "bindgen-cli", "--target-dir", tdir],
+                       cwd="/repo", env=env, stdout=subprocess.PIPE, stderr=subprocess.STDOUT, text=True)
+    exe = os.path.join(tdir, "debug", "bindgen")
+    if p.returncode != 0 or not os.path.exists(exe):
+        raise HarnessError("bindgen-cli build failed: " + p.stdout[-2000:])
+    return exe
+
+
+def cli_args(job):
+    return ([job["header"]] if job.get("header") else []) + list(job["flags"])
+
+
+def run_cli(exe, job, workdir, tag, env_extra, no_aslr):
+    import hashlib
+    env = dict(os.environ)
+    env.update(env_extra or {})
+    cmd = [exe] + cli_args(job)
+    if no_aslr:
+        cmd = ["setarch", "-R"] + cmd
+    cwd = os.path.join(workdir, f"{tag}.cwd")
+    os.makedirs(cwd, exist_ok=True)
+    try:
+        p = subprocess.run(cmd, env=env, cwd=cwd, stdout=subprocess.PIPE, stderr=subprocess.DEVNULL, timeout=300)
+        r = {"status": p.returncode, "sha": hashlib.sha256(p.stdout).hexdigest()[:32], "len": len(p.stdout)}
+    except subprocess.TimeoutExpired:
+        r = {"status": "timeout"}
+    shutil.rmtree(cwd, ignore_errors=True)
+    return r
+
+
 def instantiate(job, scratch, inst, shared=None):
     """Give a job instance its own output directory; `@SHARED@` is a directory
     shared by all generations of one scenario (as in a `make -j` build that
@@ -408,24 +453,66 @@ def run(tier, seed):
         work = os.path.join(scratch, "proc")
         os.makedirs(work, exist_ok=True)
         plist = []
+        view_refs = {}
         for i in range(n_proc):
             rng = Rng.for_case(seed, "c11-proc", i)
             j = rng.pick(usable)
-            plist.append((j, {"BVSIM_GETRANDOM_SEED": str(rng.next())}, rng.next() if rng.chance(700) else 0, rng.chance(500)))
+            view = rng.below(len(ENV_VIEWS)) if rng.chance(400) else 0
+            env = dict(ENV_VIEWS[view], BVSIM_GETRANDOM_SEED=str(rng.next()))
+            plist.append((j, env, rng.next() if rng.chance(700) else 0, rng.chance(500), view))
+            if view:
+                view_refs[(job_key(j), view)] = j
+        # references under each non-default environment view (fresh process, fixed hash seed)
+        with concurrent.futures.ThreadPoolExecutor(max_workers=NCPU) as ex:
+            futs = {k: ex.submit(run_one, {"op": "gen", "job": instantiate(j, scratch, f"vr{n}")}, work, f"vr{n}",
+                                 dict(ENV_VIEWS[k[1]], BVSIM_GETRANDOM_SEED="12345"))
+                    for n, (k, j) in enumerate(sorted(view_refs.items(), key=lambda kv: kv[0]))}
+            view_table = {k: f.result() for k, f in futs.items()}
+        stats["environment_views"] = len(ENV_VIEWS)
         with concurrent.futures.ThreadPoolExecutor(max_workers=NCPU) as ex:
             futs = [ex.submit(run_one, {"op": "gen", "job": instantiate(j, scratch, f"p{i}"), "salt": salt}, work, f"p{i}", env, noaslr)
-                    for i, (j, env, salt, noaslr) in enumerate(plist)]
+                    for i, (j, env, salt, noaslr, view) in enumerate(plist)]
             pres = [f.result() for f in futs]
-        for (j, env, salt, noaslr), r in zip(plist, pres):
+        for (j, env, salt, noaslr, view), r in zip(plist, pres):
             stats["process_runs"] += 1
             stats["generations"] += 1
-            what = compare(j, r, table[job_key(j)]) if r.get("kind") not in ("crash", "timeout") else "process-" + r["kind"]
+            ref = view_table[(job_key(j), view)] if view else table[job_key(j)]
+            what = compare(j, r, ref) if r.get("kind") not in ("crash", "timeout") else "process-" + r["kind"]
             if what:
                 stats["mismatches"] += 1
-                out.violation({"class": what + "-differs", "tier": "process", "job": family(j)},
+                out.violation({"class": what + "-differs", "tier": "process", "job": family(j), "env_view": view},
                               {"engine": "c11", "kind": "process", "job": j, "env": env, "salt": salt, "no_aslr": noaslr,
-                               "expected": obs_of(table[job_key(j)]), "observed": obs_of(r)})
+                               "expected": obs_of(ref), "observed": obs_of(r)})
         samples.append({"kind": "process", "job": plist[0][0]["id"], "env": plist[0][1], "salt": plist[0][2], "aslr_disabled": plist[0][3]})
+
+        # ---------------------------------------------------- the command-line binary, repeatedly
+        exe = build_cli()
+        cli_jobs = [j for j in usable if not j["id"].startswith("corpus:") and not j.get("outdir") and not j.get("watch")
+                    and table[job_key(j)].get("kind") == "ok"]
+        n_cli = 3 if quick else 12
+        runs = []
+        for j in cli_jobs[:12 if quick else len(cli_jobs)]:
+            for k in range(n_cli):
+                rng = Rng.for_case(seed, "c11-cli-" + j["id"], k)
+                runs.append((j, k, rng.chance(500)))
+        with concurrent.futures.ThreadPoolExecutor(max_workers=NCPU) as ex:
+            futs = [ex.submit(run_cli, exe, j, work, f"cli{i}", {}, noaslr) for i, (j, k, noaslr) in enumerate(runs)]
+            cres = [f.result() for f in futs]
+        # the library (hooks on) and the binary (hooks off) must print the same text
+        import hashlib
+        texts = run_requests([{"op": "gen", "job": dict(j, callbacks=False), "want_text": True} for j, k, _ in runs if k == 0],
+                             timeout=300, cwd=cwd, env=SHIM_ENV)
+        lib_sha = {}
+        for (j, k, _), t in zip([r for r in runs if r[1] == 0], texts):
+            lib_sha[job_key(j)] = hashlib.sha256((t.get("text") or "").encode()).hexdigest()[:32]
+        stats["cli_runs"] = len(runs)
+        for (j, k, noaslr), r in zip(runs, cres):
+            stats["generations"] += 1
+            if r.get("status") != 0 or r.get("sha") != lib_sha.get(job_key(j)):
+                stats["mismatches"] += 1
+                out.violation({"class": "cli-output-differs", "tier": "cli", "job": family(j)},
+                              {"engine": "c11", "kind": "cli", "job": j, "no_aslr": noaslr, "observed": r,
+                               "expected_sha": lib_sha.get(job_key(j))})
 
         # ---------------------------------------------------- free-running threads (auxiliary, not replayable)
         if not quick:
@@ -516,6 +603,13 @@ def replay(doc):
                     if j["id"] == doc["job_id"] and obs_of(o) != doc["expected"]:
                         return True, obs_of(o)
             return False, r
+        if kind == "cli":
+            import hashlib
+            exe = build_cli()
+            work = os.path.join(scratch, "w")
+            os.makedirs(work)
+            r = run_cli(exe, doc["job"], work, "r", {}, doc["no_aslr"])
+            return r.get("status") != 0 or r.get("sha") != doc["expected_sha"], r
         if kind == "process":
             work = os.path.join(scratch, "w")
             os.makedirs(work)
